@@ -45,9 +45,18 @@ CLAIMED = {
   'note': 'Trusted: Verus/Z3; number order is a strict total order (decimal128 comparison assumed); String order axioms; chrono-based time/date-time relations uninterpreted; '
           'closure lifting R4 (wiring not decided). Context pairs with equal key sets and mixed unequal/incomparable entries are only partly decided.',
  },
+ 'C01': {
+  'text': 'Partial. Verus proves on the real bodies: FeelIterator::run enumerates exactly the cartesian product of its (non-empty) domains in odometer order - the k-th handler call has the position vector of '
+          'mixed-radix rank k and the loop exits after exactly the product of the domain sizes calls, for all isize range bounds, ascending and descending (ghost trace, inductive invariant); '
+          'add_range/add_list build well-formed states; the operator closures and/or/=/!=/</<=/>/>=/between/in-range equal the value tables of the standard (unit compare); '
+          'Scope::get_entry/search_deep resolve names innermost-first. Known finding (replayed each run): an empty list domain beside a non-empty one still iterates.',
+  'design_ref': 'DESIGN.md section 5 C01',
+  'note': 'Trusted: Verus/Z3, vstd, stubs for FeelNumber and chrono; closure lifting R4 and RefCell erasure R8. Not decided: closure wiring (build_evaluator), arithmetic closures (pending), '
+          'function definition/invocation, filters, paths, for/some/every result assembly, determinism.',
+ },
 }
 NOT_APPLICABLE = {
- 'C01': TODO, 'C02': TODO, 'C03': TODO,
+ 'C02': TODO, 'C03': TODO,
  'C04': 'the property is about dyn Fn closures stored in RwLock<HashMap> registries calling one another along the requirement graph; no first-order function carries it, Verus has no support for dyn Fn fields / std RwLock guards, Kani cannot bound the graph (DESIGN.md section 6)',
  'C05': TODO, 'C06': TODO,
  'C07': 'deciding code is str/format!/C decNumber string conversion (scientific_to_plain, decQuadToString); Verus has no specs for these str APIs and Kani/CBMC did not finish a 3-character instance in 15 min (DESIGN.md section 6)',
